@@ -3,7 +3,17 @@
 import json, os, subprocess, sys, time
 
 def sh(cmd, **kw):
-    return subprocess.run(cmd, shell=True, capture_output=True, text=True, **kw)
+    # demos and the patched suite run with a private data / configuration home: a patched library must not leave files in
+    # the user's real ~/.local/share/ofxtools (one seeded change did: a zero-byte profile cache that broke a test for everyone)
+    import tempfile
+    env = dict(os.environ)
+    priv = tempfile.mkdtemp(prefix="seedtest-home-")
+    env.update(XDG_DATA_HOME=priv + "/data", XDG_CONFIG_HOME=priv + "/config", XDG_CACHE_HOME=priv + "/cache")
+    try:
+        return subprocess.run(cmd, shell=True, capture_output=True, text=True, env=env, **kw)
+    finally:
+        import shutil
+        shutil.rmtree(priv, ignore_errors=True)
 
 REPO = os.environ.get("VERIF_REPO", "/repo")
 
